@@ -422,16 +422,16 @@ DRIVE = {
     # ---- bake (Run drivers over an in-memory channel; certlen 600 makes M2/M3 span several blocks)
     "bakeKDF": D({"secret_len": 32, "iv_len": 64, "num": 1}, 1, extra={"secret_len": [0, 1], "iv_len": [0, 1], "num": [0, 2]}),
     "bakeSWU": D({"l": 128}, 0, flags=["ok_params"], extra={"l": [192, 256]}),
-    "bakeBMQVRunA": D({"certlen": 69}, 1, auth=["ERR_ANY"], tamper=["msg1", "msg2"],
+    "bakeBMQVRunA": D({"certlen": 69}, 1, auth=["ERR_ANY"], tamper=["msg1", "msg2", "msg1kcb"],
                       hand=RUNHAND, extra={"certlen": [64, 600]}),
-    "bakeBMQVRunB": D({"certlen": 69}, 1, auth=["ERR_ANY"], tamper=["msg1", "msg2"],
+    "bakeBMQVRunB": D({"certlen": 69}, 1, auth=["ERR_ANY"], tamper=["msg1", "msg2", "msg1kca"],
                       hand=RUNHAND, extra={"certlen": [64, 600]}),
     "bakeBSTSRunA": D({"certlen": 69}, 1, auth=["ERR_ANY"],
                       tamper=["msg1", "msg2", "msgcert", "short"], hand=RUNHAND, extra={"certlen": [64, 600, 1100]}),
     "bakeBSTSRunB": D({"certlen": 69}, 1, auth=["ERR_ANY"],
                       tamper=["msg1", "msg2", "msgcert", "short"], hand=RUNHAND, extra={"certlen": [64, 600, 1100]}),
-    "bakeBPACERunA": D({"pwd_len": 4}, 1, auth=["ERR_ANY"], tamper=["msg1", "msg2", "pwd"], hand=RUNHAND, extra={"pwd_len": [0, 1, 8]}),
-    "bakeBPACERunB": D({"pwd_len": 4}, 1, auth=["ERR_ANY"], tamper=["msg1", "msg2", "pwd"], hand=RUNHAND, extra={"pwd_len": [0, 1, 8]}),
+    "bakeBPACERunA": D({"pwd_len": 4}, 1, auth=["ERR_ANY"], tamper=["msg1", "msg2", "pwd", "pwdkcb", "msg1kcb"], hand=RUNHAND, extra={"pwd_len": [0, 1, 8]}),
+    "bakeBPACERunB": D({"pwd_len": 4}, 1, auth=["ERR_ANY"], tamper=["msg1", "msg2", "pwd", "pwdkca", "msg1kca"], hand=RUNHAND, extra={"pwd_len": [0, 1, 8]}),
     # ---- bpki
     "bpkiPrivkeyWrap": D({"privkey_len": 32, "pwd_len": 8, "iter": 10000}, 1, extra={"pwd_len": [0, 1]}),
     "bpkiPrivkeyUnwrap": D({"pwd_len": 8, "epki_len": 160}, 1, auth=["ERR_ANY"], tamper=["pwd", "ct", "last", "der"]),
